@@ -16,7 +16,7 @@ pub struct CatchState {
 /// A `TermLike` that records the payload of every write.
 #[derive(Clone)]
 pub struct LineCatcher {
-    pub w: u16,
+    pub w: Arc<std::sync::atomic::AtomicU16>,
     pub h: u16,
     pub st: Arc<Mutex<CatchState>>,
 }
@@ -29,7 +29,10 @@ impl std::fmt::Debug for LineCatcher {
 
 impl LineCatcher {
     pub fn new(w: u16) -> Self {
-        LineCatcher { w, h: 1000, st: Arc::new(Mutex::new(CatchState::default())) }
+        LineCatcher { w: Arc::new(std::sync::atomic::AtomicU16::new(w)), h: 1000, st: Arc::new(Mutex::new(CatchState::default())) }
+    }
+    pub fn resize(&self, w: u16) {
+        self.w.store(w, std::sync::atomic::Ordering::Relaxed);
     }
     pub fn take(&self) -> Vec<String> {
         let mut st = self.st.lock().unwrap_or_else(|e| e.into_inner());
@@ -40,7 +43,7 @@ impl LineCatcher {
 
 impl TermLike for LineCatcher {
     fn width(&self) -> u16 {
-        self.w
+        self.w.load(std::sync::atomic::Ordering::Relaxed)
     }
     fn height(&self) -> u16 {
         self.h
@@ -86,6 +89,15 @@ pub fn frame_lines(catcher: &LineCatcher, pb: &ProgressBar) -> Vec<String> {
     pb.force_draw();
     let mut v = catcher.take();
     // last payload is the right-edge filler of the last bar line (spaces only, possibly empty)
+    v.pop();
+    v
+}
+
+/// The frame lines of one ordinary (non-forced) redraw request.
+pub fn frame_lines_tick(catcher: &LineCatcher, pb: &ProgressBar) -> Vec<String> {
+    catcher.take();
+    pb.tick();
+    let mut v = catcher.take();
     v.pop();
     v
 }
